@@ -108,6 +108,12 @@ def gen_tree(rng, depth_above=None, small=False):
     if rng.chance(1, 5):
         depth = len(t.root.split(b'/')) - 1 + da + 1
         t.link(root + b'climb.lnk', b'../' * (depth + rng.range(0, 2)) + t.root[1:] + b'/secret.txt'); names.append(b'climb.lnk')
+    # a directory reached through a link, holding a file link with a relative `..` target: what the kernel resolves (through the
+    # real directory) and what a textual resolution from the requested path gives are different files
+    if rng.chance(1, 3):
+        t.file(root + b'real/data.txt', b'data next to real/deep').file(root + b'real/deep/own.txt', b'own')
+        t.link(root + b'real/deep/rel.lnk', b'../data.txt').link(root + b'alias', b'real/deep')
+        names += [b'alias/own.txt', b'alias/rel.lnk', b'real/deep/rel.lnk']
     t.names = names
     return t
 
